@@ -117,6 +117,14 @@ CHECKS = {
         "other and with the specification's content after every mirrored step, and the bridge's independent root at the end.",
    note="content-level specification; the term-level model of hash references (WMPTAlg) is future growth",
    technique="TLA+ spec (WMPTPath.tla) + TLC-enumerated scenarios replayed into the Go code + TLC trace validation"),
+ "C15": dict(level="exploration", ref="DESIGN.md §5 C15, §6",
+   text="Codec.tla models the state-trie node format (Dec(Enc(n)) = n exhaustively over a small alphabet incl. separators inside "
+        "values) and defines the space of near-valid inputs as mutation plans; TLC enumerates the whole plan space, every plan is "
+        "concretised on every matching seed of a corpus harvested from real encodings and fed, with random inputs, to CreateNode, "
+        "wmpt.DeserializeNode, Deserialize and VerifyBlockProof under recover and a deadline; accepted results are re-encoded; TLC "
+        "validates every recorded outcome is ok/err.",
+   note="exploration of a structured input space, not a proof over all byte strings",
+   technique="TLC-enumerated mutation plans (Codec.tla) concretised on real encodings + random inputs; TLC validates recorded outcomes"),
 }
 
 NOT_APPLICABLE = []
